@@ -635,7 +635,7 @@ def new_b(env):
 class Bindings(Sub):
     name = 'c03.bindings'
     rule = ('every sequence of <= k binding operations (set_variable, set_function incl. shadowing a built-in, listeners on '
-            'three events, parses) on parser A, created before or after parser B: every probe on B equals the probe on a '
+            'three events, parses) on parser A, created before or after parser B - or B a copy.deepcopy fork of A taken before the operations: every probe on B equals the probe on a '
             'parser that never had a sibling, A\'s listeners are never invoked by B, and A still sees its own bindings; '
             'non-trivial = all')
     min_cases = 100
@@ -645,7 +645,7 @@ class Bindings(Sub):
         k = 2 if tier == 'quick' else 3
         for n in range(1, k + 1):
             for seq in itertools.product(range(len(BOPS)), repeat=n):
-                for order in (0, 1):
+                for order in (0, 1, 2):
                     yield [list(seq), order]
 
     def check(self, env, case):
@@ -666,9 +666,15 @@ class Bindings(Sub):
         if order == 0:
             A = env.new_parser()
             B = new_b(env)
-        else:
+        elif order == 1:
             B = new_b(env)
             A = env.new_parser()
+        else:
+            # B is a fork: copy.deepcopy of a configured template; what happens to the template afterwards is not B's business
+            import copy
+            A = new_b(env)
+            A.parse('xv+A1')
+            B = copy.deepcopy(A)
         for oi in seq:
             op = BOPS[oi]
             if op[0] == 'setvar':
